@@ -1,0 +1,196 @@
+//! Verification hooks (compiled only with `--cfg surrealkv_verif`).
+//!
+//! Everything in this module is additive: thin `pub` wrappers that delegate to
+//! crate-private functionality, process-global switches that default to "off",
+//! and read-only introspection. With the cfg flag absent this file is not part
+//! of the build at all.
+
+use std::sync::atomic::{AtomicBool, AtomicU64, Ordering};
+use std::sync::Arc;
+
+use crate::clock::LogicalClock;
+use crate::compaction::leveled::Strategy;
+use crate::compaction::CompactionStrategy;
+use crate::lsm::CompactionOperations;
+use crate::{Options, Result, Transaction, Tree};
+
+// ===== H3: manual background mode =====
+
+static MANUAL_BACKGROUND: AtomicBool = AtomicBool::new(false);
+
+/// When set, `TaskManager::wake_up_memtable/level` become no-ops so that only
+/// explicit `verif_*` calls flush or compact.
+pub fn set_manual_background(on: bool) {
+	MANUAL_BACKGROUND.store(on, Ordering::SeqCst);
+}
+
+#[inline]
+pub(crate) fn manual_background() -> bool {
+	MANUAL_BACKGROUND.load(Ordering::Relaxed)
+}
+
+// ===== H9: deterministic skiplist heights =====
+
+static HEIGHT_SEEDED: AtomicBool = AtomicBool::new(false);
+static HEIGHT_STATE: AtomicU64 = AtomicU64::new(0);
+
+/// Installs a process-wide deterministic generator for skiplist tower heights
+/// (`None` restores the thread RNG).
+pub fn set_height_seed(seed: Option<u64>) {
+	match seed {
+		Some(s) => {
+			HEIGHT_STATE.store(s | 1, Ordering::SeqCst);
+			HEIGHT_SEEDED.store(true, Ordering::SeqCst);
+		}
+		None => HEIGHT_SEEDED.store(false, Ordering::SeqCst),
+	}
+}
+
+#[inline]
+pub(crate) fn height_rnd() -> Option<u32> {
+	if !HEIGHT_SEEDED.load(Ordering::Relaxed) {
+		return None;
+	}
+	// splitmix64 step on a shared counter
+	let mut z = HEIGHT_STATE.fetch_add(0x9E37_79B9_7F4A_7C15, Ordering::Relaxed);
+	z = (z ^ (z >> 30)).wrapping_mul(0xBF58_476D_1CE4_E5B9);
+	z = (z ^ (z >> 27)).wrapping_mul(0x94D0_49BB_1331_11EB);
+	z ^= z >> 31;
+	Some((z >> 32) as u32)
+}
+
+// ===== H8: clock =====
+
+pub use crate::clock::LogicalClock as VerifLogicalClock;
+
+impl Options {
+	/// Replaces the (crate-private) logical clock.
+	pub fn verif_with_clock(mut self, clock: Arc<dyn LogicalClock>) -> Self {
+		self.clock = clock;
+		self
+	}
+}
+
+// ===== H2 / H4: physical control and introspection =====
+
+#[derive(Debug, Clone, PartialEq, Eq)]
+pub struct VerifTableInfo {
+	pub id: u64,
+	pub smallest: Option<Vec<u8>>,
+	pub largest: Option<Vec<u8>>,
+	pub seq_lo: u64,
+	pub seq_hi: u64,
+	pub oldest_vlog: u64,
+	pub num_entries: u64,
+	pub file_size: u64,
+}
+
+impl Tree {
+	/// Rotates the active memtable into the immutable queue (no flush).
+	pub fn verif_rotate(&self) -> Result<()> {
+		self.core.inner.rotate_memtable()
+	}
+
+	/// Flushes the oldest immutable memtable. Returns whether the immutable
+	/// queue shrank.
+	pub fn verif_flush_oldest(&self) -> Result<bool> {
+		let before = self.core.inner.immutable_count();
+		self.core.inner.compact_memtable()?;
+		self.core.write_stall.signal_work_done();
+		Ok(self.core.inner.immutable_count() < before)
+	}
+
+	/// Rotate (if non-empty) and flush every immutable memtable.
+	pub fn verif_flush_all(&self) -> Result<()> {
+		self.core.inner.rotate_memtable()?;
+		self.core.inner.flush_all_immutables_sync()?;
+		self.core.write_stall.signal_work_done();
+		Ok(())
+	}
+
+	/// Runs one round of the leveled strategy. Returns whether the set of live
+	/// tables changed.
+	pub fn verif_compact_once(&self) -> Result<bool> {
+		let ids = |t: &Tree| -> Result<Vec<u64>> {
+			let m = t.core.inner.level_manifest.read()?;
+			let mut v: Vec<u64> = m.get_all_tables().keys().copied().collect();
+			v.sort_unstable();
+			Ok(v)
+		};
+		let before = ids(self)?;
+		let strategy: Arc<dyn CompactionStrategy> =
+			Arc::new(Strategy::from_options(Arc::clone(&self.core.inner.opts)));
+		self.core.inner.compact(strategy)?;
+		self.core.write_stall.signal_work_done();
+		Ok(ids(self)? != before)
+	}
+
+	pub fn verif_layout(&self) -> Vec<Vec<VerifTableInfo>> {
+		let m = match self.core.inner.level_manifest.read() {
+			Ok(m) => m,
+			Err(_) => return Vec::new(),
+		};
+		m.levels
+			.get_levels()
+			.iter()
+			.map(|level| {
+				level
+					.tables
+					.iter()
+					.map(|t| VerifTableInfo {
+						id: t.id,
+						smallest: t.meta.smallest_point.as_ref().map(|k| k.user_key.clone()),
+						largest: t.meta.largest_point.as_ref().map(|k| k.user_key.clone()),
+						seq_lo: t.meta.properties.seqnos.0,
+						seq_hi: t.meta.properties.seqnos.1,
+						oldest_vlog: t.meta.properties.oldest_vlog_file_id,
+						num_entries: t.meta.properties.num_entries,
+						file_size: t.file_size,
+					})
+					.collect()
+			})
+			.collect()
+	}
+
+	pub fn verif_immutable_count(&self) -> usize {
+		self.core.inner.immutable_count()
+	}
+
+	pub fn verif_active_memtable_empty(&self) -> bool {
+		self.core.inner.active_memtable.read().map(|m| m.is_empty()).unwrap_or(true)
+	}
+
+	pub fn verif_visible_seq(&self) -> u64 {
+		self.core.seq_num()
+	}
+
+	pub fn verif_snapshot_tracker_dump(&self) -> Vec<u64> {
+		self.core.inner.snapshot_tracker.get_all_snapshots()
+	}
+
+	pub fn verif_oldest_active_start_seq(&self) -> u64 {
+		self.core.inner.oldest_active_start_seq()
+	}
+
+	pub fn verif_active_wal_number(&self) -> u64 {
+		self.core.inner.wal.read().get_active_log_number()
+	}
+
+	pub fn verif_manifest_log_number(&self) -> u64 {
+		self.core.inner.level_manifest.read().map(|m| m.get_log_number()).unwrap_or(0)
+	}
+
+	pub fn verif_should_stall(&self) -> bool {
+		self.core.write_stall.should_stall()
+	}
+
+	pub fn verif_background_error(&self) -> Option<String> {
+		self.core.inner.error_handler.check_error().err().map(|e| e.to_string())
+	}
+}
+
+impl Transaction {
+	pub fn verif_start_seq(&self) -> u64 {
+		self.start_seq_num
+	}
+}
